@@ -78,7 +78,7 @@ CHECKS = {
  "C05": dict(
     level="model_checking",
     text="The library talks to an independently written scripted B2F peer whose free choices (role, SID feature strings, ;FW forms, "
-         "comment/;PM/MOTD placement, answer alphabet incl. zero-offset accepts, block sizes 1..256, duplicate MIDs, early FQ; library "
+         "comment/;PM/MOTD placement, answer alphabet incl. zero-offset accepts, block sizes 1..256, duplicate MIDs, early FQ in turn and CMS-style (FQ and hang-up right after the peer's last block); library "
          "user agent, callsign case, locator, auxiliary addresses) are drawn per scenario. Every byte the Session emits is lexed by the "
          "independent lexer and all units/handler events are validated by TLC against the protocol rules and the prescribed outcome of "
          "the monitor B2FProps.tla.",
@@ -221,7 +221,10 @@ CHECKS = {
          "library's own debug log (frames read, frames dropped) plus the application's Read calls against the pipeline of Agwpe.tla "
          "with inferred silent steps, so that a loss counts as the known drop-when-full finding only if the logged drops explain it; AgwpeTx.tla models the "
          "transmit side (Y polling before and after each D frame, Flush) and AgwpeTxTrace.tla validates the TNC's view of D frames and "
-         "Y polls merged with the Write / Flush calls against it.",
+         "Y polls merged with the Write / Flush calls against it; AgwpeMux.tla models several connections sharing one port (polls "
+         "answered in any order, replies routed by callsign pair; FlushSound, OwnReport, FlushEnds; deviation: replies matched at the "
+         "port) and AgwpeMuxTrace.tla validates the TNC's per-connection log of two concurrently flushing connections against it; a "
+         "reply that arrives after its request gave up must not stop the stream.",
     note="Internal goroutine interleavings of the library are not controlled (no gates); paced schedules stay inside the envelope. "
          "Frame loss on bursts is a recorded known finding (design-level flow control). Real-time polls make each schedule cost seconds.",
     technique="TLA+ pipeline model (design, envelope) + simulated TNC schedules on real code judged by TLC trace validation",
